@@ -79,6 +79,67 @@ def rule_m1(chk: Check, ix: Index):
                 any(s.startswith("return TokenInfo(Token.MACRO_PARAM, string, start, end, line)") for s in src),
                 "M1-must-append", "consume_macro_params:span", f.where,
                 "the raw argument token must span from the first captured token's start to the last one's end")
+    # blank argument or real one: decided on the captured *text* (a line break inside the brackets is blank text made of NL
+    # tokens, not of WS tokens)
+    import types as _types0
+    from .. import constfold as _cf0
+    chk.count("M1-must-append")
+    ws_rets = [n for n in own_nodes(f.node) if isinstance(n, ast.Return) and isinstance(n.value, ast.Call) and norm_stmt(n.value.func) == "TokenInfo"
+               and n.value.args and "Token.WS" in norm_stmt(n.value.args[0])]
+    guard = None
+    for i in own_nodes(f.node):
+        if isinstance(i, ast.If) and ws_rets and any(ws_rets[0] is x for x in i.body):
+            guard = (i.test, True)
+        elif isinstance(i, ast.If) and ws_rets and any(ws_rets[0] is x for x in i.orelse):
+            guard = (i.test, False)
+    verdict, why_b = None, ""
+    if len(ws_rets) == 1 and guard is not None and textvar:
+        test, pol = guard
+        names = {n.id for n in ast.walk(test) if isinstance(n, ast.Name)}
+        SAMPLES = ["", " ", "\n", "\n    ", " a ", "\t", "x", "\n  y", "  \n"]
+        if names <= {textvar}:
+            try:
+                wrong = [s for s in SAMPLES if bool(_cf0.fold_expr(test, {textvar: s})) != ((not s.strip()) == pol)]
+                verdict, why_b = not wrong, f"differs on the texts {wrong[:3]!r}"
+            except AnalysisError as e:
+                why_b = str(e)
+        else:
+            # a flag carried through the loop: flag = flag and P(tok)  (flag starts True)  <=>  all(P(tok))
+            flag = test.operand if isinstance(test, ast.UnaryOp) and isinstance(test.op, ast.Not) else test
+            flag_pol = pol != (flag is not test)
+            if isinstance(flag, ast.Name):
+                fdefs = [s for s in own_nodes(f.node) if isinstance(s, ast.Assign) and len(s.targets) == 1 and norm_stmt(s.targets[0]) == flag.id]
+                init = [s for s in fdefs if isinstance(s.value, ast.Constant)]
+                upd = [s for s in fdefs if isinstance(s.value, ast.BoolOp) and any(norm_stmt(v) == flag.id for v in s.value.values)]
+                if len(init) == 1 and len(upd) == 1 and len(fdefs) == 2 and tokvar:
+                    conj = isinstance(upd[0].value.op, ast.And)
+                    pred = [v for v in upd[0].value.values if norm_stmt(v) != flag.id]
+                    if len(pred) == 1 and init[0].value.value is conj:
+                        wrong = []
+                        try:
+                            Token = _types0.SimpleNamespace(**{k: ("Token", k) for k in repo.token_enum_names()})
+                            FEASIBLE = {"WS": [" ", "\t", "  "], "NL": ["\n", "\r\n"], "NEWLINE": ["\n"], "NAME": ["x"], "OP": [",", "("],
+                                        "STRING": ["'a'", "' '"], "COMMENT": ["# c"], "NUMBER": ["1"]}
+                            for kind, texts in FEASIBLE.items():
+                                for s in texts:
+                                    tok = _types0.SimpleNamespace(type=getattr(Token, kind), string=s)
+                                    got = bool(_cf0.builder_expr_eval(("strip", "isspace", "lstrip", "rstrip"))(pred[0], {tokvar: tok, "Token": Token}))
+                                    # all-blank flag (and-form, tested positively) must be "this token's text is blank"
+                                    blank_tok = not s.strip()
+                                    want = blank_tok if conj else not blank_tok
+                                    if got != want:
+                                        wrong.append((kind, s))
+                            means_blank = flag_pol if conj else not flag_pol
+                            verdict = not wrong and means_blank
+                            why_b = f"the per-token test differs from 'its text is blank' on {wrong[:3]!r}"
+                        except (AnalysisError, KeyError, AttributeError, _cf0.PureEvalError) as e:
+                            why_b = str(e)
+    if verdict is None:
+        chk.undecided("M1-must-append", "consume_macro_params:blank-argument", f.where, f"the blank/real decision is not evaluable: {why_b}")
+    else:
+        chk.require(verdict, "M1-must-append", "consume_macro_params:blank-argument", f.where,
+                    f"an argument is blank (a WS token, dropped) exactly when its captured text is empty or white space; {why_b} "
+                    f"(`f!(a,\\n)` must not pass a second argument made of the line break)")
     # the raw fetch is transparent: it returns the next token of the stream, whatever it is (a filter here removes tokens —
     # comments, blanks — from every raw capture)
     from ..pyflow import stmt_paths
